@@ -250,6 +250,7 @@ func checkC06(p *Program, r *Report) {
 	// a segment's bytes depend on the segment alone: the codec keeps no state between calls
 	receiverReadOnly(p, r, "codec-stateless", "segment", "codec")
 	c06OnlyRefusal(p, r)
+	fullReads(p, r, "full-reads", "segment", "crc", "compression/lz4")
 
 	// ---- refusal -----------------------------------------------------------------------------------
 	badRefusal := ""
